@@ -1,7 +1,7 @@
 (* C05 — simultaneous eating returns the outcome of the eating process. Statements only. *)
 From Coq Require Import Arith ZArith QArith List Bool Lia.
 Import ListNotations.
-From SCK Require Import Argsort Eat3 Eat3Proof EatFinal.
+From SCK Require Import Argsort Eat3 Eat3Proof Eat3Term Eat3Envy EatFinal.
 Local Open Scope Q_scope.
 
 (* The model (Eat3.v) IS the eating process in exact rational arithmetic: at every event each agent
@@ -9,22 +9,49 @@ Local Open Scope Q_scope.
    step lasts until the first agent is full or the first item being eaten is exhausted; positions
    advance past exhausted items. Proved for every n, every square profile and all positive speeds:
    whenever the process stops, every column and every row of its matrix sums to exactly 1. *)
-Theorem C05_bistochastic_partial : forall P speeds Xm, let n := length P in
+Theorem C05_bistochastic : forall P speeds Xm, let n := length P in
   (1 <= n)%nat -> (forall row, In row P -> length row = n) -> (forall s, In s speeds -> 0 < s) ->
   eating_run P speeds = Some Xm ->
   (forall j, (j < n)%nat -> sumQ (fun i => nth j (nth i Xm []) 0) (seq 0 n) == 1) /\
   (forall i, (i < n)%nat -> sumQ (fun j => nth j (nth i Xm []) 0) (seq 0 n) == 1).
 Proof. exact C05_run_bistochastic. Qed.
-Print Assumptions C05_bistochastic_partial.
+Print Assumptions C05_bistochastic.
 
-(* NOT YET PROVED (decided per explored case by the correspondence with tolerance 1e-7 and by the
-   independent exact-rational oracle): the process stops within 2n events (eating_run never returns
-   None on strict complete profiles); with equal speeds no agent's row is stochastically dominated
-   by another agent's row; the binary64 result stays within 1e-7 of the exact outcome for all inputs. *)
-Definition C05_termination_statement : Prop :=
-  forall P speeds, let n := length P in
+(* the process stops: on every square profile with positive speeds the model returns a matrix (each event exhausts an
+   item or fills an agent, so at most 2n events happen; a state that is not finished always has an agent that is not full) *)
+Theorem C05_terminates : forall P speeds, let n := length P in
   (1 <= n)%nat -> (forall row, In row P -> length row = n) -> (forall s, In s speeds -> 0 < s) ->
-  eating_run P speeds <> None.
+  exists Xm, eating_run P speeds = Some Xm.
+Proof. exact C05_run_terminates. Qed.
+Print Assumptions C05_terminates.
+
+(* eating in order: in every state the process passes through, an agent that is not yet full is at a position p of its
+   ranking whose item is not exhausted while all items it prefers are, and the next event adds t * speed to exactly
+   that entry of its row (and nothing to the others) *)
+Theorem C05_eats_most_preferred_available : forall P speeds st i e, let n := length P in
+  (1 <= n)%nat -> (forall row, In row P -> length row = n) -> (forall s, In s speeds -> 0 < s) ->
+  Eat3Term.reach n (eat_item P) (eat_speed speeds) st -> finished n st = false -> (i < n)%nat -> nth i (eaten st) None = Some e ->
+  exists p, nth i (pos st) None = Some p /\ (p < n)%nat /\ nth (eat_item P i p) (rem st) None <> None /\
+            (forall q, (q < p)%nat -> nth (eat_item P i q) (rem st) None = None) /\
+            forall t j, (j < n)%nat -> step_time n (eat_item P) (eat_speed speeds) st = Some t ->
+              E (nextst n (eat_item P) (eat_speed speeds) st t) i j == E st i j + (if (eat_item P i p =? j)%nat then t * eat_speed speeds i else 0).
+Proof. exact C05_run_eats_in_order. Qed.
+Print Assumptions C05_eats_most_preferred_available.
+
+(* equal speeds (probabilistic serial): for every agent i, every agent k and every q, agent i's row holds at least as
+   much of i's q most preferred items as k's row does - no row stochastically dominates i's row w.r.t. i's ranking
+   unless all prefix sums are equal *)
+Theorem C05_equal_speeds_sd_envy_free : forall P speeds s Xm, let n := length P in
+  (1 <= n)%nat -> (forall row, In row P -> length row = n) -> (forall x, In x speeds -> 0 < x) ->
+  (forall i, (i < n)%nat -> eat_speed speeds i = s) ->
+  eating_run P speeds = Some Xm ->
+  forall i k q, (i < n)%nat -> (k < n)%nat -> (q <= n)%nat ->
+    sumQ (fun p => nth (eat_item P i p) (nth k Xm []) 0) (seq 0 q) <= sumQ (fun p => nth (eat_item P i p) (nth i Xm []) 0) (seq 0 q).
+Proof. exact C05_run_sd_envy_free. Qed.
+Print Assumptions C05_equal_speeds_sd_envy_free.
+
+(* NOT PROVED: the binary64 result (with its 1e-9 snapping) stays within 1e-7 of this exact outcome for all inputs -
+   decided per explored case by the correspondence (entrywise comparison evaluated in Q inside Coq). *)
 
 Example C05_nonvacuous :
   eating_run [[Some 0; Some 1]; [Some 0; Some 1]]%nat [1; 1] = Some [[1#2; 1#2]; [1#2; 1#2]].
